@@ -69,3 +69,22 @@ func init() {
 		r.OkTrivial("debug", "x", 0)
 	})
 }
+
+func init() {
+	register("DEBUGRET", func(r *Run) {
+		fn := r.P.Fn(os.Getenv("DBG_FN"))
+		for _, f := range r.P.retSummary(fn) {
+			fmt.Fprintf(os.Stderr, "   %+v\n", f)
+		}
+		fa := r.P.FA(fn)
+		for _, ret := range returnsOf(fn) {
+			for i, v := range ret.Results {
+				fmt.Fprintf(os.Stderr, "  result %d: %s lin=%s\n", i, valStr(v), fa.Lin(v))
+				for _, f := range fa.FactsAt(ret, fa.Lin(v)) {
+					fmt.Fprintf(os.Stderr, "      fact %s\n", f)
+				}
+			}
+		}
+		r.OkTrivial("debug", "x", 0)
+	})
+}
